@@ -177,6 +177,10 @@ func genInterleave(t *rapid.T) Case {
 		c.Ops = append(c.Ops, genPar(t, fmt.Sprintf("p%d.", s)))
 		seq(fmt.Sprintf("post%d.", s), 2)
 	}
+	// the storage names every registered client in the audience of a grant (foreign callers of a step are named in the token's audience)
+	if rapid.IntRange(0, 3).Draw(t, "audclients") == 0 {
+		c.AudClients = 7
+	}
 	return c
 }
 
